@@ -39,6 +39,7 @@ CONSTANTS SynthTxt,    \* the txt of synthesised commands ("" in traces, a tuple
 Dev_G92Sign      == "g92sign" \in Dev          \* D11 G92 X/Y/Z shift stored with inverted sign
 Dev_G92ERel      == "g92erel" \in Dev          \* D20 G92 E applied relatively in relative E mode
 Dev_RelNoG92     == "relNoG92" \in Dev         \* D21 relative-mode retract commands without G92 E
+Dev_LastNoHome   == "lastNoHome" \in Dev       \* D18 remembered position does not follow G28
 Dev_NoTrackOff   == "noTrackDisabled" \in Dev  \* D7  X/Y not tracked while exclusion is disabled
 Dev_LastAfter    == "lastAfter" \in Dev        \* D2  lastPosition taken after the entering move
 Dev_AbsExit      == "absExit" \in Dev          \* D1  absolute re-positioning in relative mode
@@ -256,9 +257,9 @@ HandleG28(fs, c) ==
         [fs EXCEPT !.X = IF hx THEN Home(fs.X) ELSE fs.X,
                    !.Y = IF hy THEN Home(fs.Y) ELSE fs.Y,
                    !.Z = IF hz THEN Home(fs.Z) ELSE fs.Z,
-                   !.lastX = IF fs.exc /\ hx THEN 0 ELSE fs.lastX,
-                   !.lastY = IF fs.exc /\ hy THEN 0 ELSE fs.lastY,
-                   !.lastZ = IF fs.exc /\ hz THEN 0 ELSE fs.lastZ]
+                   !.lastX = IF fs.exc /\ hx /\ ~Dev_LastNoHome THEN 0 ELSE fs.lastX,
+                   !.lastY = IF fs.exc /\ hy /\ ~Dev_LastNoHome THEN 0 ELSE fs.lastY,
+                   !.lastZ = IF fs.exc /\ hz /\ ~Dev_LastNoHome THEN 0 ELSE fs.lastZ]
 
 \* setLogicalOffsetPosition
 SetOffset(ax, c, l) ==
